@@ -52,7 +52,14 @@ def build_lf(rec):
     lf = sm.make_likelihood_function(tree, bins=nb) if nb else sm.make_likelihood_function(tree)
     pi = {x: float(frac(v)) for x, v in rec["pi"]}
     if mname not in ("JC69", "K80"):
-        lf.set_motif_probs(pi)
+        # arguments are values: the probabilities are handed over in a numpy array that the caller goes on using as a work
+        # buffer (overwritten right after the call); every later rule below triggers a partial recalculation
+        buf = np.array([pi[str(m)] for m in sm.get_alphabet()], dtype=float)
+        lf.set_motif_probs(buf)
+        try:
+            buf[:] = buf[::-1].copy()
+        except ValueError:
+            pass  # frozen by the function: cannot be reused, also fine
     leaves = [n for n in rec["leafname"] if n]
     ncol = len(rec["cols"])
     seqs = {n: [] for n in leaves}
